@@ -113,14 +113,21 @@ def runProtoStepsIds (lastMatch : Bool) (addr rxq txq ops : String) (implRes imp
             match runOp { s with txQueue := [] } o with
             | some (s', _) => (s'.log.drop s.log.length).filterMap fun | .tx p _ => some (showPacket p) | _ => none
             | none => []
+          -- in an exchange only the part before the wait mark is matched; what the implementation transmits after it
+          -- (callbacks run for packets the exchange read and did not return — C18 is silent about them) uses up link
+          -- answers, which are taken from the model's queue as well
+          let isX := o.startsWith "x"
+          let segI := implSeg i
+          let preWait := if isX then segI.takeWhile (· != "w") else segI
+          let extraTx := if isX then (txEntriesOf (segI.dropWhile (· != "w"))).length else 0
           let s1 : Proto :=
-            match followAnswers lastMatch dryTx (txEntriesOf (implSeg i)) with
+            match followAnswers lastMatch dryTx (txEntriesOf preWait) with
             | some answers =>
               if answers.length ≤ s.txQueue.length || answers.any (! ·) then
                 { s with txQueue := (answers.map fun ok => if ok then none else some 0) ++ s.txQueue.drop answers.length }
               else s
             | none => s
-          (runOp s1 o).map .ok
+          (runOp s1 o).map fun (s', r) => .ok ({ s' with txQueue := s'.txQueue.drop extraTx }, r)
       match step with
       | none => none
       | some (.error e) => some (.error e)
